@@ -53,7 +53,7 @@ var minimalOnly = map[string]uint64{
 	"SYNC_COMMITTEE_SIZE": 32, "EPOCHS_PER_SYNC_COMMITTEE_PERIOD": 8,
 	"MAX_WITHDRAWALS_PER_PAYLOAD": 4, "MAX_VALIDATORS_PER_WITHDRAWALS_SWEEP": 16,
 	"MAX_BLOBS_PER_BLOCK": 6,
-	"SECONDS_PER_SLOT": 6, "SHARD_COMMITTEE_PERIOD": 64, "ETH1_FOLLOW_DISTANCE": 16, "MIN_PER_EPOCH_CHURN_LIMIT": 2, "CHURN_LIMIT_QUOTIENT": 32,
+	"SECONDS_PER_SLOT":    6, "SHARD_COMMITTEE_PERIOD": 64, "ETH1_FOLLOW_DISTANCE": 16, "MIN_PER_EPOCH_CHURN_LIMIT": 2, "CHURN_LIMIT_QUOTIENT": 32,
 	"MAX_PER_EPOCH_ACTIVATION_CHURN_LIMIT": 4, "MIN_GENESIS_ACTIVE_VALIDATOR_COUNT": 64, "MIN_GENESIS_TIME": 1578009600, "GENESIS_DELAY": 300,
 	"ALTAIR_FORK_EPOCH": never, "BELLATRIX_FORK_EPOCH": never, "CAPELLA_FORK_EPOCH": never, "DENEB_FORK_EPOCH": never,
 }
